@@ -249,7 +249,7 @@ def default_inline(ctx):
     Functions the rules know by name (sa/tables/known_functions.json) are never inlined here - they are anchors."""
     known = known_functions()
 
-    def resolve(call, evaluator):
+    def resolve(call, evaluator, generator=False):
         f = call[1]
         fi = evaluator.fi
         target = None
@@ -268,10 +268,13 @@ def default_inline(ctx):
         decs = [ast.unparse(d) for d in (getattr(target, 'decorators', None) or [])]
         if decs and decs != ['staticmethod']:
             return None            # a decorated helper (memoised, wrapped, ...) is not its body (a plain staticmethod is)
-        if any(isinstance(n, (ast.Yield, ast.YieldFrom, ast.Global, ast.Nonlocal)) for n in ast.walk(target.node)):
+        if any(isinstance(n, (ast.Global, ast.Nonlocal)) for n in ast.walk(target.node)):
+            return None
+        if any(isinstance(n, (ast.Yield, ast.YieldFrom)) for n in ast.walk(target.node)) != generator:
             return None
         ctx.functions.add(target.qualname)
         return target
+    resolve.generator = lambda call, evaluator: resolve(call, evaluator, generator=True)
     return resolve
 
 
@@ -365,6 +368,17 @@ def inline_resolver(ctx, names):
     return resolve
 
 
+def property_value(ctx, cls_qual, name):
+    """the value a read-only property `name` of class `cls_qual` returns (term over ('param','self')), when its getter has a single returning path; None otherwise"""
+    fi = ctx.P.functions.get(cls_qual + '.' + name)
+    if fi is None or not any(ast.unparse(d) == 'property' for d in fi.node.decorator_list):
+        return None
+    rets = ret_paths(run(ctx, fi, mode='join'))
+    if len(rets) != 1:
+        return None
+    return rets[0].value
+
+
 def cond_paths(c):
     """short-circuit evaluation paths of a condition term: [(guards, truth)] with guards = ((canonical atom, polarity), ...) in evaluation order -
     the same decomposition the evaluator applies to the test of an if statement"""
@@ -426,6 +440,11 @@ def expr_term(ctx, fi, node, env=None):
 UNKNOWN = object()
 
 
+class _FrozenMap(dict):
+    """a dict literal evaluated by val_eval (hashable by identity, so that it can sit in tuples of values)"""
+    __hash__ = object.__hash__
+
+
 def val_eval(t, env):
     """Concrete evaluation of a term over Python constants (None / str / int / bool) for scenario tables: `env` maps leaf terms to values.
     Returns UNKNOWN when a leaf is not in `env` or an operator is not modelled. `getattr(o, 'f', d)` is read as o.f (falling back to d only
@@ -440,6 +459,36 @@ def val_eval(t, env):
         if any(v is UNKNOWN for v in vals):
             return UNKNOWN
         return tuple(vals)
+    if tag == 'dict':
+        out = {}
+        for k, v in t[1]:
+            kk, vv = val_eval(k, env), val_eval(v, env)
+            if kk is UNKNOWN or vv is UNKNOWN:
+                return UNKNOWN
+            try:
+                out[kk] = vv
+            except TypeError:
+                return UNKNOWN
+        return _FrozenMap(out)
+    if tag == 'sub' and t[2][0] != 'slice':
+        c, k = val_eval(t[1], env), val_eval(t[2], env)
+        if c is UNKNOWN or k is UNKNOWN:
+            return UNKNOWN
+        try:
+            return c[k]
+        except Exception:
+            return UNKNOWN
+    if tag == 'call' and t[1][0] == 'attr' and t[1][2] == 'get' and len(t[2]) in (1, 2) and not t[3]:
+        c = val_eval(t[1][1], env)
+        if isinstance(c, _FrozenMap):
+            k = val_eval(t[2][0], env)
+            d = val_eval(t[2][1], env) if len(t[2]) == 2 else None
+            if k is UNKNOWN or d is UNKNOWN:
+                return UNKNOWN
+            try:
+                return c.get(k, d)
+            except TypeError:
+                return UNKNOWN
     if tag == 'call' and T.dotted(t[1]) == 'getattr' and len(t[2]) in (2, 3) and t[2][1][0] == 'const':
         a = ('attr', t[2][0], t[2][1][1])
         if a in env:
